@@ -183,6 +183,19 @@ func v4State() {
 					r.Violation("ip.NewIPv4FromString:shared-object", "two calls returned the same *IPv4", cs)
 				}
 			}
+			// texts that are refused (or should be) in between: the same text again must still
+			// give the same address
+			if i%4 == 0 {
+				for _, bad := range []string{txt + "/", txt + "x", "/" + txt, fmt.Sprintf("%s/%d", dotted(c.v), c.bits+33), "300." + txt, strings.Replace(txt, ".", "..", 1), strings.Replace(txt, "/", "//", 1), "", "/", dotted(c.v) + "/-1", dotted(c.v)[:len(dotted(c.v))-1] + "/" + fmt.Sprint(c.bits) + "/"} {
+					mon.Guard(func() { ip.NewIPv4FromString(bad) })
+					r.Count("refused_texts_between_valid_ones", 1)
+				}
+				again := ip.NewIPv4FromString(txt)
+				r.Eval(1)
+				if again == nil || again.ToUInt32() != c.v || int(again.MaskBits) != c.bits {
+					r.Violation("ip.NewIPv4FromString:sequence:again-after-refused-texts", fmt.Sprintf("NewIPv4FromString(%q) right after malformed texts = %s", txt, v4fields(again)), cs)
+				}
+			}
 			// stale: one long-lived object, fields assigned directly
 			if obj == nil || i%97 == 0 {
 				obj = ip.NewIPv4FromString("255.255.255.255/32")
